@@ -515,6 +515,7 @@ func wedgeSignature(dump string) string {
 		return c
 	}
 	set := map[string]bool{}
+	loopState := ""
 	upfFrames := func(g string) []string {
 		var fs []string
 		for _, l := range strings.Split(g, "\n")[1:] {
@@ -538,6 +539,15 @@ func wedgeSignature(dump string) string {
 		switch {
 		case strings.Contains(g, "pfcp.(*PfcpServer).main("):
 			set["loop@"+fs[0]] = true
+			// how it waits there: "chan send", "select", "chan receive", ...
+			hdr := strings.SplitN(g, "\n", 2)[0]
+			if i := strings.Index(hdr, "["); i >= 0 {
+				st := hdr[i+1:]
+				if j := strings.IndexAny(st, ",(]"); j >= 0 {
+					st = st[:j]
+				}
+				loopState = strings.TrimSpace(st)
+			}
 		case strings.HasPrefix(fs[0], "pfcp.(*PfcpServer).Notify") && len(fs) > 1:
 			set[fs[1]+">"+strings.TrimPrefix(fs[0], "pfcp.(*PfcpServer).")] = true
 		}
@@ -547,7 +557,9 @@ func wedgeSignature(dump string) string {
 	perioStuck := set["perio.(*Server).Serve>NotifySessReport"]
 	muxStuck := set["buffnetlink.(*Server).ServeMsg>NotifySessReport"]
 	switch {
-	case (set["loop@perio.(*Server).AddPeriodReportTimer"] || set["loop@perio.(*Server).DelPeriodReportTimer"]) && perioStuck:
+	case (set["loop@perio.(*Server).AddPeriodReportTimer"] || set["loop@perio.(*Server).DelPeriodReportTimer"]) && perioStuck && loopState == "chan send":
+		// the known shape D9a is the loop blocked *sending* into the full event queue; the
+		// loop waiting there in any other way is a different defect
 		return "loop>perio-event-queue|perio>report-queue"
 	case set["loop@go-nl.(*Client).Do"] && muxStuck:
 		return "loop>netlink-reply|mux>report-queue"
@@ -565,6 +577,9 @@ func wedgeSignature(dump string) string {
 	sort.Strings(loops)
 	sort.Strings(others)
 	if len(loops) > 0 {
+		if loopState != "" && loopState != "chan send" {
+			return strings.Join(loops, "|") + "[" + loopState + "]"
+		}
 		return strings.Join(loops, "|")
 	}
 	return strings.Join(others, "|")
